@@ -23,7 +23,7 @@ fn elem_pool() -> Vec<TV> {
     for n in [f64::NAN, f64::INFINITY, f64::NEG_INFINITY, 0.0, -0.0, 1.0, -1.0, 2.0, 0.5, -2.5, 3.0, 1e30, 7.0, 0.1] {
         p.push(TV::Num(n));
     }
-    for s in ["", "a", "b", "é"] {
+    for s in ["", "a", "b", "é", "B", "\u{ff5e}", "\u{1f600}"] {
         p.push(TV::Str(s.into()));
     }
     p.push(TV::Bool(true));
